@@ -560,7 +560,20 @@ fn c20_program(rng: &mut Rng) -> (String, Vec<String>) {
         _ => rng.range(0, 1000).to_string(),
     };
     let src = format!("def main({params}): i64 {{\n{body}  {ret}\n}}\n");
-    let argv = (0..k).map(|_| boundary(rng).to_string()).collect();
+    // decimal renderings: canonical, with leading zeros, with an explicit plus sign
+    let argv = (0..k)
+        .map(|_| {
+            let v = boundary(rng);
+            match rng.below(10) {
+                0 => {
+                    let zeros = "0".repeat(1 + rng.below(3));
+                    if v < 0 { format!("-{zeros}{}", v.unsigned_abs()) } else { format!("{zeros}{v}") }
+                }
+                1 if v >= 0 => format!("+{v}"),
+                _ => v.to_string(),
+            }
+        })
+        .collect();
     (src, argv)
 }
 
@@ -589,6 +602,45 @@ pub fn boundary(rng: &mut Rng) -> i64 {
         4 => *rng.pick(&[2147483647i64, 2147483648, -2147483648, -2147483649, 4294967295, 4294967296, -4294967296]),
         _ => rng.range(-1000, 1000),
     }
+}
+
+/// C20, file-system history: the real `generate_c_driver` skips writing a driver that already
+/// exists in ./target_scc, so what an earlier compilation left there must never be handed to a
+/// later program with a different number of parameters. Returns a description of the first
+/// driver whose text does not fit the requested arity.
+pub fn driver_history(rng: &mut Rng, tag: &str) -> Result<(u64, Option<String>), String> {
+    let dir = format!("{}/work/dh-{tag}-{}", verif_dir(), std::process::id());
+    let _ = std::fs::remove_dir_all(&dir);
+    std::fs::create_dir_all(&dir).map_err(|e| e.to_string())?;
+    let old = std::env::current_dir().map_err(|e| e.to_string())?;
+    std::env::set_current_dir(&dir).map_err(|e| e.to_string())?;
+    let heaps = [None, Some(8usize), Some(64usize)];
+    let mut bad = None;
+    let steps = 3 + rng.below(5) as u64;
+    let mut hist = Vec::new();
+    for _ in 0..steps {
+        let k = rng.below(6);
+        let h = heaps[rng.below(3)];
+        hist.push(format!("({k}, {h:?})"));
+        let path = driver::generate_c_driver(k, h);
+        let text = std::fs::read_to_string(&path).unwrap_or_default();
+        let want_argc = format!("(argc != 1 + {k})");
+        let n_args = text.matches("(argv[").count();
+        let n_params = text.lines().find(|l| l.contains("asm(\"asm_main\")")).map(|l| l.matches("int64_t input").count()).unwrap_or(usize::MAX);
+        let want_heap = format!("UINT64_C(1024 * 1024) * {}", h.unwrap_or(32));
+        if !text.contains(&want_argc) || n_args != k || n_params != k || !text.contains(&want_heap) {
+            bad = Some(format!(
+                "after the driver generation history {} the driver handed out for {k} parameter(s) and heap size {h:?} ({}) checks `{}`, passes {n_args} argument(s), declares {n_params} parameter(s)",
+                hist.join(", "),
+                path.display(),
+                text.lines().find(|l| l.contains("argc != ")).unwrap_or("?").trim()
+            ));
+            break;
+        }
+    }
+    let _ = std::env::set_current_dir(old);
+    let _ = std::fs::remove_dir_all(&dir);
+    Ok((steps, bad))
 }
 
 #[derive(Serialize, Deserialize, Clone, Debug, Default)]
@@ -631,6 +683,39 @@ pub fn xworker(id: &str, tier: &str, seed: u64, w: u64, n: u64) -> i32 {
         let keys = Rng::keyed(seed, i, "hashkeys").next() | 1;
         let mut prng = Rng::keyed(seed, i, "x-plans");
         sum.stats.runs += 1;
+        if id == "C20" && i % 16 == 5 {
+            match driver_history(&mut rng, &format!("{w}")) {
+                Ok((steps, None)) => {
+                    sum.stats.executions += steps;
+                    seen.insert(hash_str(&format!("dh{i}")));
+                }
+                Ok((_, Some(msg))) => {
+                    let rp = XReplay {
+                        engine: "X".into(),
+                        property: "C20".into(),
+                        class: "DriverHistory".into(),
+                        message: msg,
+                        verif_seed: seed,
+                        run: i,
+                        kind: "driver-history".into(),
+                        source: String::new(),
+                        argv: vec![],
+                        plan: EnvPlan::benign(),
+                        minimised: true,
+                        unique_twin: None,
+                        deshadowed_twin: None,
+                    };
+                    emit(serde_json::json!({"found": rp}));
+                }
+                Err(e) => {
+                    sum.harness = Some(format!("run {i}: driver history: {e}"));
+                    emit(serde_json::json!({"summary": sum}));
+                    return 2;
+                }
+            }
+            i += n;
+            continue;
+        }
         if id == "C20" && i % 2 == 0 {
             // (a) the print primitives alone
             let v = boundary(&mut rng);
@@ -823,6 +908,14 @@ pub fn replay_x(rt: &CRuntime, rp: &XReplay) -> Result<Option<(String, String)>,
             }
             Ok(None)
         }
+        "driver-history" => {
+            let mut rng = Rng::keyed(rp.verif_seed, rp.run, "x-workload");
+            match driver_history(&mut rng, "replay") {
+                Ok((_, Some(m))) => Ok(Some(("DriverHistory".into(), m))),
+                Ok((_, None)) => Ok(None),
+                Err(e) => Err(e),
+            }
+        }
         "a64-args" => {
             let args: Vec<i64> = rp.argv.iter().map(|a| a.parse().unwrap_or(0)).collect();
             let keys = Rng::keyed(rp.verif_seed, rp.run, "hashkeys").next() | 1;
@@ -869,7 +962,7 @@ fn items(src: &str) -> Vec<String> {
 }
 
 pub fn minimise_x(rt: &CRuntime, rp: &mut XReplay, mut attempts: usize) {
-    if rp.kind == "print" || rp.kind == "argc" || rp.kind == "a64-args" {
+    if rp.kind == "print" || rp.kind == "argc" || rp.kind == "a64-args" || rp.kind == "driver-history" {
         return;
     }
     let same = |rt: &CRuntime, c: &XReplay, class: &str| -> Option<String> {
